@@ -38,6 +38,71 @@ def Grp.sortGroups {α : Type} : List (String × Grp α) → List (String × Grp
   | (k, g) :: rest => (k, Grp.sortKeys g) :: Grp.sortGroups rest
 end
 
+/-! ### well-typedness of transformer outputs -/
+
+mutual
+/-- data of a variable: a leaf / constant scalar, or a (nested) list of those — never a dict or a tuple -/
+def PVal.leafy {α : Type} : PVal α → Bool
+  | .leaf _ => true
+  | .cstr _ => true
+  | .cint _ => true
+  | .list xs => PVal.leafyList xs
+  | _ => false
+def PVal.leafyList {α : Type} : List (PVal α) → Bool
+  | [] => true
+  | x :: xs => PVal.leafy x && PVal.leafyList xs
+end
+
+mutual
+/-- an attribute value: a scalar / string or a (nested) list or tuple of those — never a dict -/
+def PVal.plainAttr {α : Type} : PVal α → Bool
+  | .leaf _ => true
+  | .cstr _ => true
+  | .cint _ => true
+  | .list xs => PVal.plainAttrList xs
+  | .tup xs => PVal.plainAttrList xs
+  | .dict _ => false
+def PVal.plainAttrList {α : Type} : List (PVal α) → Bool
+  | [] => true
+  | x :: xs => PVal.plainAttr x && PVal.plainAttrList xs
+end
+
+def GVar.wellTyped {α : Type} (v : GVar α) : Bool := v.data.leafy && v.attrs.all (fun kv => kv.2.plainAttr)
+
+mutual
+def Grp.wellTyped {α : Type} : Grp α → Bool
+  | .mk vars groups attrs => vars.all (fun kv => kv.2.wellTyped) && Grp.wellTypedGroups groups && attrs.all (fun kv => kv.2.plainAttr)
+def Grp.wellTypedGroups {α : Type} : List (String × Grp α) → Bool
+  | [] => true
+  | (_, g) :: rest => Grp.wellTyped g && Grp.wellTypedGroups rest
+end
+
+mutual
+/-- all leaves of a value -/
+def PVal.leaves {α : Type} : PVal α → List α
+  | .leaf a => [a]
+  | .list xs => PVal.leavesList xs
+  | .tup xs => PVal.leavesList xs
+  | .dict kvs => PVal.leavesKvs kvs
+  | _ => []
+def PVal.leavesList {α : Type} : List (PVal α) → List α
+  | [] => []
+  | x :: xs => PVal.leaves x ++ PVal.leavesList xs
+def PVal.leavesKvs {α : Type} : List (String × PVal α) → List α
+  | [] => []
+  | (_, v) :: rest => PVal.leaves v ++ PVal.leavesKvs rest
+end
+
+def GVar.leaves {α : Type} (v : GVar α) : List α := v.data.leaves ++ PVal.leavesKvs v.attrs
+
+mutual
+def Grp.leaves {α : Type} : Grp α → List α
+  | .mk vars groups attrs => vars.flatMap (fun kv => kv.2.leaves) ++ Grp.leavesGroups groups ++ PVal.leavesKvs attrs
+def Grp.leavesGroups {α : Type} : List (String × Grp α) → List α
+  | [] => []
+  | (_, g) :: rest => Grp.leaves g ++ Grp.leavesGroups rest
+end
+
 /-- a leaf map `f` is compatible with two families of leaf functions -/
 structure Compat {α β : Type} (f : α → β) (lf : LeafFns α) (lf' : LeafFns β) : Prop where
   toBool : ∀ a, f (lf.toBool a) = lf'.toBool (f a)
@@ -128,5 +193,10 @@ def Con.skelFields : List (String × Con) → List String → List (String × PV
     | none => none
     | some s => Con.skelFields rest p (kvSet acc name s)
 end
+
+/-- the record paths a symbolic leaf mentions -/
+def Sym.paths : Sym → List (List String)
+  | .path p => [p]
+  | .app _ a => a.paths
 
 end Alos2
